@@ -23,6 +23,7 @@ type schedVec struct {
 	MwOn   *bool    `json:"mwon"`   // false: the middleware's level is filtered out by the base handler
 	Nmw    int      `json:"nmw"`    // LogMiddleware instances (default 1)
 	Routes [][]int  `json:"routes"` // per request: the instances it passes, outermost first (default [1])
+	Forms  []string `json:"forms"`  // per request: request-target form (default: rotate by request id)
 	Ops    [][]op   `json:"ops"`
 	Sched  [][]any  `json:"sched"` // [process, gate arrived at]
 	Pred   []struct {
@@ -77,7 +78,7 @@ const stepPatience = 10 * time.Second
 // so that the pools hold used objects - the steady state of a server - when
 // the scheduled requests start; without it they start from empty pools.
 func runSchedule(v *schedVec, ridBase int, warm bool, tr *tracer) (out schedOutcome) {
-	e := &env{s: sched.New(), gates: map[string]bool{}, retain: v.Retain, tr: tr, mwOff: v.MwOn != nil && !*v.MwOn}
+	e := &env{s: sched.New(), gates: map[string]bool{}, retain: v.Retain, tr: tr, mwOff: v.MwOn != nil && !*v.MwOn, forms: v.Forms}
 	routeOf := func(p int) []int {
 		if p < len(v.Routes) && len(v.Routes[p]) > 0 {
 			return v.Routes[p]
@@ -100,7 +101,13 @@ func runSchedule(v *schedVec, ridBase int, warm bool, tr *tracer) (out schedOutc
 	}
 	var warmSt *reqState
 	if warm {
-		st, r := e.newRequest(v.N+1, ridBase+v.N+1, namedBehaviours[3])
+		// the warm-up request answers 404, or (every other time) hijacks its
+		// connection: whatever it leaves in the pooled wrapper must not matter
+		wb := namedBehaviours[3]
+		if ridBase%32 == 0 {
+			wb = namedBehaviours[14]
+		}
+		st, r := e.newRequest(v.N+1, ridBase+v.N+1, wb)
 		for p := 0; p < v.N; p++ { // the longest route of the vector
 			if len(routeOf(p)) > len(st.route) {
 				st.route = routeOf(p)
@@ -110,7 +117,7 @@ func runSchedule(v *schedVec, ridBase int, warm bool, tr *tracer) (out schedOutc
 		if tr != nil {
 			tr.begin(st)
 		}
-		through(mws, st.route, e.inner(func(*http.Request) *reqState { return st })).ServeHTTP(st.rec, r)
+		through(mws, st.route, e.inner(func(*http.Request) *reqState { return st })).ServeHTTP(st.w, r)
 		if tr != nil {
 			tr.end(st)
 		}
@@ -125,7 +132,7 @@ func runSchedule(v *schedVec, ridBase int, warm bool, tr *tracer) (out schedOutc
 			if tr != nil {
 				tr.begin(st)
 			}
-			h.ServeHTTP(st.rec, r)
+			h.ServeHTTP(st.w, r)
 			if tr != nil {
 				tr.end(st)
 			}
